@@ -168,7 +168,7 @@ _p('C01', 'Attack-graph edges are exactly the MAL meaning of the step expression
             ('R14', '_process_step_expression'), ('R19', '_process_step_expression')], floor=30)
 
 _p('C02', 'One node per asset x step, with attributes faithful to model and language',
-   ['R3', 'R4', 'R12', 'R8', 'R17', 'R20', 'R19', 'R14', 'R6', 'R10', 'R22', 'R18', 'R25'],
+   ['R3', 'R4', 'R12', 'R8', 'R17', 'R20', 'R19', 'R14', 'R6', 'R10', 'R22', 'R18', 'R2', 'R25'],
    decided=['R3: every node entering the node list is registered in both lookup indexes and '
             'advances the id counter (and symmetrically on removal)',
             'R4: add_node honours an explicit id by an is-None test, its duplicate test checks the '
@@ -229,7 +229,7 @@ _p('C05', 'The instance model stays coherent under any history of edits',
             ('R5', 'Model.remove_asset_from_association')])
 
 _p('C06', 'A model can only hold what the language allows',
-   ['R17', 'R8', 'R18', 'R20', 'R6', 'R10', 'R22', 'R25'],
+   ['R17', 'R8', 'R18', 'R20', 'R6', 'R10', 'R22', 'R3', 'R25'],
    decided=['R17 T11a: per asset the schema entry has id/type, allOf to every direct super asset, and for every '
             'defense step a number property with minimum 0, maximum 1 and default 1.0 iff its TTC is Enabled else 0.0',
             'R17 T11b: per association an array field per end typed by $ref to the declared asset of that end, '
@@ -246,7 +246,7 @@ _p('C06', 'A model can only hold what the language allows',
             ('R17', 'Model.add_association')], floor=5)
 
 _p('C07', 'Saving and loading a model preserves it (JSON and YAML)',
-   ['R8', 'R4', 'R15', 'R10', 'R22', 'R17', 'R25'],
+   ['R8', 'R4', 'R15', 'R10', 'R22', 'R17', 'R2', 'R25'],
    decided=['R8 i-ii: every key Model._to_dict (with asset/association/attacker_to_dict) writes is read by '
             '_from_dict and every key read unguarded is written unconditionally',
             'R8 iii: conversions invert per declared field type; asset / attacker ids that travelled as mapping '
